@@ -69,7 +69,9 @@ LLC::LLC(const uint8_t* buffer, uint32_t total_sz) {
 		// TODO: Create information fields if corresponding.
 	}
 	else {
-		type((Format)(*stream.pointer() & 0x03));
+		// Information frames only have the lowest bit cleared, the second one
+		// belongs to the send sequence number
+		type(((*stream.pointer() & 0x01) == 0) ? LLC::INFORMATION : LLC::SUPERVISORY);
 		control_field_length_ = 2;
 		stream.read(control_field.info);
 	}
